@@ -36,6 +36,7 @@ fn bounds(tier: Tier) -> Vec<(Fam, u8, Vec<RCfg>, usize)> {
             (Fam::Txt, 1, vec![nogc(1, false)], 4),
             (Fam::Txt, 0, vec![nogc(1, false), nogc(2, false)], 3),
             (Fam::Rtx, 0, vec![nogc(1, false)], 3),
+            (Fam::Rtx, 4, vec![nogc(1, false)], 4),
             (Fam::Uni, 0, vec![nogc(1, true)], 3),
             (Fam::Arr, 1, vec![nogc(1, false)], 3),
             (Fam::Map, 1, vec![nogc(1, false)], 3),
@@ -48,6 +49,8 @@ fn bounds(tier: Tier) -> Vec<(Fam, u8, Vec<RCfg>, usize)> {
             (Fam::Txt, 0, vec![nogc(2, false), nogc(1, false)], 4),
             (Fam::Rtx, 1, vec![nogc(1, false)], 4),
             (Fam::Rtx, 0, vec![nogc(1, false), nogc(2, false)], 3),
+            (Fam::Rtx, 4, vec![nogc(1, false)], 5),
+            (Fam::Rtx, 4, vec![nogc(1, false), nogc(2, false)], 3),
             (Fam::Uni, 1, vec![nogc(1, true)], 4),
             (Fam::Uni, 0, vec![nogc(1, false)], 4),
             (Fam::Arr, 1, vec![nogc(1, false)], 5),
